@@ -42,6 +42,9 @@ CHECKS = {
  "C13": dict(cat="exploration", tech="model-based history testing: exhaustive short histories plus Hypothesis RuleBasedStateMachine histories executed in a child under an LD_PRELOAD free()/realloc() interposer with quarantine, checked after every step against a reference-count model",
    text="Every history (evaluate to sparse/dense/scalar, alias, cffi struct, read, pickle, feed as input, delete, gc.collect) is executed on real tensora objects; after every step each kernel-allocated array must have been freed 0 times while referenced and exactly once after its last reference is gone (never twice, never during the call that produced it).",
    note="Trusted: the interposer sees every free/realloc (LD_PRELOAD first in resolution order); quarantine prevents address reuse inside a history.", ref="DESIGN.md §3 C13"),
+ "C14": dict(cat="exploration", tech="schedule generation: Hypothesis-drawn workloads run under a line-level cooperative scheduler whose choice sequence is part of the case (controlled interleavings of tensora/compile/*.py), plus 16-thread stress rounds; differential oracle against the same calls made sequentially on a cold cache",
+   text="Generated workloads (mix of cached/never-seen problems, both back ends) are run concurrently under generated, replayable interleavings and under free-running contention; every call must return exactly its sequential result, with no exception, hang or crash. Native-level races are only sampled (stated limit).",
+   note="Trusted: sys.settrace line events as yield points; the sequential run in the same process as reference.", ref="DESIGN.md §3 C14"),
 }
 def main():
     checks = []
